@@ -235,7 +235,8 @@ macro_rules! affine_mod {
                         }
                     }
                 });
-                let pows: [f64; 6] = [2.0, 0.5, 1024.0, 1.0 / 4096.0, 1048576.0, 1.0 / 1048576.0];
+                // powers of two from 2^-60 to 2^40: tiny supports must behave like any other (no absolute thresholds)
+                let pows: Vec<f64> = [1i32, -1, 10, -12, 20, -20, -24, -30, -53, -60, 40].iter().map(|e| 2f64.powi(*e)).collect();
                 fam_run!("inverse_gaussian", |t: &mut Tally| {
                     for &(m, l) in &[(1.0, 1.0), (1.5, 0.25), (0.125, 3.0), (3.0, 40.0)] {
                         for &c in &pows {
@@ -265,7 +266,9 @@ macro_rules! affine_mod {
                 });
                 // LogNormal: affine in log space == from_zscore of the standard normal drawn from the clone
                 fam_run!("log_normal", |t: &mut Tally| {
-                    for &(l, s) in &ls {
+                    // both signs of sigma (a negative std_dev is documented as allowed and must act as such)
+                    let both: Vec<(f64, f64)> = ls.iter().flat_map(|&(l, s)| [(l, s), (l, -s)]).collect();
+                    for &(l, s) in &both {
                         let lim = if IS32 { 80.0 } else { 700.0 };
                         if l.abs() + 9.0 * s.abs() > lim {
                             continue;
